@@ -127,6 +127,10 @@ fn run_sequence(seq: &[(Req, Fill, Restore)], r: &mut Report) {
                     if have(&layers) != want { r.violation("write_sboms_exact", "after LayerRef::write_sboms exactly the given SBOM formats exist", format!("sequence {seq:?}, step {step}: write_sboms({set:?}) after earlier SBOMs"), format!("{want:?} (cdx, spdx, syft)"), format!("{:?}", have(&layers))); }
                 }
                 fs::write(lr.path().join("payload"), b"data").unwrap();
+                // a link into another layer that a restore may leave dangling, and one that dangles right away
+                let _ = std::os::unix::fs::symlink("../y/bin/tool", lr.path().join("current"));
+                let _ = std::os::unix::fs::symlink("../gone/never-there", lr.path().join("a-dangling"));
+                fs::create_dir_all(lr.path().join("zz/deep")).unwrap(); fs::write(lr.path().join("zz/deep/last"), b"l").unwrap();
             }
         }
         // lifecycle between builds
